@@ -359,13 +359,13 @@ static void runCases(const char* fn)
             buf.resize(buf.size() + 8, '\0');   // the tokeniser may step one past the terminator (C13)
             ret = s->parseSettingsString(buf.data()) ? "1" : "0";
          }
-         else if(t[0] == "L")
+         else if(t[0] == "L" || t[0] == "LN")
          {
-            // load a settings file made of the given lines
+            // load a settings file made of the given lines; LN: the last line is not terminated
             std::ofstream f(tmpf);
 
             for(size_t k = 1; k < t.size(); k++)
-               f << vf::unhex(t[k]) << "\n";
+               f << vf::unhex(t[k]) << ((t[0] == "LN" && k + 1 == t.size()) ? "" : "\n");
 
             f.close();
             ret = s->loadSettingsFile(tmpf.c_str()) ? "1" : "0";
